@@ -150,9 +150,9 @@ def forbidden_tokens():
     return hits
 
 
-def audit(prop, theorems):
+def audit(prop, theorems, target=None):
     """#print axioms for each theorem.  Returns (ok_names, bad) where bad maps name -> reason."""
-    src = [f"import CspuzModel.Properties.{prop}"]
+    src = [f"import {target or ('CspuzModel.Properties.' + prop)}"]
     for t in theorems:
         src.append(f"#print axioms {t}")
     path = os.path.join(LEAN, "CspuzModel", "Audit", f"{prop}.lean")
@@ -317,7 +317,8 @@ def run_check(mod, prop, tier, seed, replay_path=None):
                 gen_err = f"extraction failed: {type(e).__name__}: {e}"
                 ctx.broken.append(gen_err)
         # 2. build
-        ok, log = lake_build([f"CspuzModel.Properties.{prop}", "cspuzdriver"])
+        target = getattr(mod, "LEAN_TARGET", f"CspuzModel.Properties.{prop}")
+        ok, log = lake_build([target, "cspuzdriver"])
         if not ok:
             errs = [l for l in log.split("\n") if "error" in l.lower()][:8]
             ctx.broken.append("lake build CspuzModel.Properties.%s failed: %s" % (prop, " | ".join(errs)[:1500]))
@@ -330,7 +331,7 @@ def run_check(mod, prop, tier, seed, replay_path=None):
             hits = forbidden_tokens()
             if hits:
                 ctx.broken.append("forbidden tokens: " + "; ".join(hits[:5]))
-            good, bad = audit(prop, theorems)
+            good, bad = audit(prop, theorems, target)
             ctx.discharged = len(good)
             for t, why in bad.items():
                 ctx.broken.append(f"theorem {t}: {why}")
